@@ -404,3 +404,160 @@ func specGfpow(t T, p int) T {
 //@   panics i < 0 || i >= m.rows || j < 0 || j >= m.columns
 //@   ensures result == m.elements[i*m.columns+j]
 //@   use mulMono(i, m.rows, m.columns)
+
+//@ func checkRowColumnCount
+//@   props C11 C07
+//@   pure
+//@   panics rows <= 0 || columns <= 0
+//@   ensures rows > 0 && columns > 0
+
+//@ func NewZeroMatrix
+//@   props C11 C07
+//@   requires mathint(rows) * mathint(columns) <= 70368744177664
+//@   panics rows <= 0 || columns <= 0
+//@   modifies nothing
+//@   ensures matOK(result) && result.rows == rows && result.columns == columns
+//@   ensures fresh(result.elements)
+
+//@ func NewMatrixFromSlice
+//@   props C11 C07
+//@   requires mathint(rows) * mathint(columns) <= 70368744177664
+//@   panics rows <= 0 || columns <= 0 || mathint(len(elements)) != mathint(rows) * mathint(columns)
+//@   modifies nothing
+//@   ensures matOK(result) && result.rows == rows && result.columns == columns
+//@   ensures fresh(result.elements)
+//@   ensures forall(k, 0, len(elements), result.elements[k] == elements[k])
+
+//@ func (Matrix).clone
+//@   props C11 C07
+//@   requires matOK(m)
+//@   modifies nothing
+//@   ensures matOK(result) && result.rows == m.rows && result.columns == m.columns
+//@   ensures fresh(result.elements)
+//@   ensures forall(k, 0, len(m.elements), result.elements[k] == m.elements[k])
+
+//@ func (Matrix).row
+//@   props C11 C07
+//@   pure
+//@   requires matOK(m)
+//@   panics i < 0 || i >= m.rows
+//@   ensures i >= 0 && i < m.rows
+//@   ensures sameSlice(result, m.elements[i*m.columns : (i+1)*m.columns])
+//@   use mulMono(i, m.rows, m.columns)
+
+// rowsApart: two different rows of a well-formed matrix do not overlap.
+//@ lemma rowsApart
+//@   props C11 C07
+//@   mode int
+//@   forall a int, b int, c int
+//@   requires 0 <= a && a < b && c >= 1
+//@   ensures mathint(a)*mathint(c) + mathint(c) <= mathint(b)*mathint(c)
+
+// mrow(m, i): row i of m as a slice of m.elements
+//@ pred mrow(m, i) = m.elements[i*m.columns : (i+1)*m.columns]
+
+//@ func (Matrix).swapRows
+//@   props C11 C07
+//@   requires matOK(m)
+//@   panics i < 0 || i >= m.rows || j < 0 || j >= m.rows
+//@   modifies mrow(m, i) ; mrow(m, j)
+//@   ensures forall(k, 0, m.columns, mrow(m, i)[k] == old(mrow(m, j)[k]) && mrow(m, j)[k] == old(mrow(m, i)[k]))
+//@   use mulMono(i, m.rows, m.columns)
+//@   use mulMono(j, m.rows, m.columns)
+//@   use rowsApart(i, j, m.columns)
+//@   use rowsApart(j, i, m.columns)
+//@   loop 0
+//@     invariant forall(q, 0, k, rowI[q] == old(mrow(m, j)[q]) && rowJ[q] == old(mrow(m, i)[q]))
+//@     invariant forall(q, k, m.columns, rowI[q] == old(mrow(m, i)[q]) && rowJ[q] == old(mrow(m, j)[q]))
+
+//@ func (Matrix).scaleRow
+//@   props C11 C07
+//@   opaque
+//@   requires matOK(m)
+//@   panics i < 0 || i >= m.rows
+//@   modifies mrow(m, i)
+//@   ensures forall(k, 0, m.columns, mrow(m, i)[k] == specGfmul(c, old(mrow(m, i)[k])))
+//@   use mulMono(i, m.rows, m.columns)
+
+//@ func (Matrix).addScaledRow
+//@   props C11 C07
+//@   opaque
+//@   requires matOK(m) && dest != src
+//@   panics dest < 0 || dest >= m.rows || src < 0 || src >= m.rows
+//@   modifies mrow(m, dest)
+//@   ensures forall(k, 0, m.columns, mrow(m, dest)[k] == old(mrow(m, dest)[k]) ^ specGfmul(c, old(mrow(m, src)[k])))
+//@   use mulMono(dest, m.rows, m.columns)
+//@   use mulMono(src, m.rows, m.columns)
+//@   use rowsApart(dest, src, m.columns)
+//@   use rowsApart(src, dest, m.columns)
+
+// Lockstep of the two operands of the row reduction: every row operation on m is followed by
+// the same operation, with the same arguments, on n (call-site obligations; a missing call
+// site is a failed obligation).
+//@ func (Matrix).rowReduceForInverse
+//@   props C11 C07
+//@   opaque
+//@   assert-call swapRows #0 : sameSlice(arg0.elements, m.elements) && arg1 == i && arg2 == j
+//@   assert-call swapRows #1 : sameSlice(arg0.elements, n.elements) && arg0.rows == n.rows && arg0.columns == n.columns && arg1 == i && arg2 == j
+//@   assert-call scaleRow #0 : sameSlice(arg0.elements, m.elements) && arg1 == i && arg2 == pivotInv
+//@   assert-call scaleRow #1 : sameSlice(arg0.elements, n.elements) && arg0.rows == n.rows && arg0.columns == n.columns && arg1 == i && arg2 == pivotInv
+//@   assert-call addScaledRow #0 : sameSlice(arg0.elements, m.elements) && arg1 == j && arg2 == i && arg3 == t
+//@   assert-call addScaledRow #1 : sameSlice(arg0.elements, n.elements) && arg0.rows == n.rows && arg0.columns == n.columns && arg1 == j && arg2 == i && arg3 == t
+//@   assert-call addScaledRow #2 : sameSlice(arg0.elements, m.elements) && arg1 == j && arg2 == i && arg3 == t
+//@   assert-call addScaledRow #3 : sameSlice(arg0.elements, n.elements) && arg0.rows == n.rows && arg0.columns == n.columns && arg1 == j && arg2 == i && arg3 == t
+//@   requires matOK(m) && matOK(n) && m.rows == m.columns && n.rows == m.rows && disjoint(m.elements, n.elements)
+//@   modifies m.elements[:] ; n.elements[:]
+//@   loop 1
+//@     invariant j >= i
+//@   loop 2
+//@     invariant j >= i + 1
+
+//@ func NewMatrixFromFunction
+//@   props C11 C07
+//@   note pure-param fn
+//@   requires mathint(rows) * mathint(columns) <= 70368744177664
+//@   panics rows <= 0 || columns <= 0
+//@   modifies nothing
+//@   ensures matOK(result) && result.rows == rows && result.columns == columns
+//@   ensures fresh(result.elements)
+//@   assert-call fn : 0 <= arg0 && arg0 < rows && 0 <= arg1 && arg1 < columns
+//@   loop 0
+//@     invariant rows > 0 && columns > 0
+//@     use mulMono(i, rows, columns)
+
+//@ func NewIdentityMatrix
+//@   props C11 C07
+//@   requires mathint(n) * mathint(n) <= 70368744177664
+//@   panics n <= 0
+//@   modifies nothing
+//@   ensures matOK(result) && result.rows == n && result.columns == n
+//@   ensures fresh(result.elements)
+
+//@ func (Matrix).Inverse
+//@   props C11 C07
+//@   requires matOK(m)
+//@   panics m.rows != m.columns
+//@   modifies nothing
+//@   ensures implies(result1 == nil, matOK(result0) && result0.rows == m.rows && result0.columns == m.columns && fresh(result0.elements))
+
+//@ func (Matrix).RowReduceForInverse
+//@   props C11 C07
+//@   requires matOK(m) && matOK(n)
+//@   panics m.rows != m.columns || n.rows != m.rows
+//@   modifies nothing
+//@   ensures implies(result1 == nil, matOK(result0) && result0.rows == n.rows && result0.columns == n.columns && fresh(result0.elements))
+
+//@ func (Matrix).Times
+//@   props C11 C07
+//@   requires matOK(m) && matOK(n) && mathint(m.rows) * mathint(n.columns) <= 70368744177664
+//@   panics m.columns != n.rows
+//@   modifies nothing
+//@   ensures matOK(result) && result.rows == m.rows && result.columns == n.columns && fresh(result.elements)
+
+// The element function of Times is only ever called by NewMatrixFromFunction, whose call-site
+// assertion guarantees 0 <= i < rows, 0 <= j < columns.
+//@ func (Matrix).Times$1
+//@   props C11 C07
+//@   opaque
+//@   requires matOK(m) && matOK(n) && m.columns == n.rows && 0 <= i && i < m.rows && 0 <= j && j < n.columns
+//@   modifies nothing
